@@ -91,12 +91,12 @@ theorem coh_init (c : Cfg V E) (ex : V → X) (init : Pid → Entry V E) (progs 
 theorem coh_outside {c : Cfg V E} {ex : V → X} {init : Pid → Entry V E} {s : Sys V E} (hi : Inv c init s)
     (hc : Coh c ex init s) (t : Tid) (a d sl : Option Tid) (ac : Cid → Pid → Bool) (th : Thread V E)
     (hu : inU (s.thr t).pc = false)
-    (hmono : ∀ k p, s.act k p = true → ac k p = true) (hreg : regOk ac th.pc) :
-    Coh c ex init { s with alock := a, dlock := d, slock := sl, act := ac, thr := upd s.thr t th } := by
+    (hmono : ∀ k p, s.act k p = true → ac k p = true) (hreg : regOk ac th.pc) (ad : Nat := s.adepth) :
+    Coh c ex init { s with alock := a, adepth := ad, dlock := d, slock := sl, act := ac, thr := upd s.thr t th } := by
   refine ⟨?_, fun k p h => hmono k p (hc.subAct k p h), ?_⟩
   · intro k p hs
     have hk := hc.know k p hs
-    have he : expectS c ex init { s with alock := a, dlock := d, slock := sl, act := ac, thr := upd s.thr t th } p k =
+    have he : expectS c ex init { s with alock := a, adepth := ad, dlock := d, slock := sl, act := ac, thr := upd s.thr t th } p k =
         expectS c ex init s p k := by
       cases hl : s.lock with
       | none => rw [expectS_free p k hl, expectS_free p k (by first | rfl | exact hl)]; rfl
@@ -165,13 +165,28 @@ theorem coh_stepIdle {c : Cfg V E} {ex : V → X} {init : Pid → Entry V E} {s 
       simp only at hs
       split at hs
       · cases hs
-        exact coh_outside hi hc t (some t) s.dlock s.slock s.act ⟨rest, .idle⟩ hu (fun _ _ h => h) trivial
-      · cases hs
+        exact coh_outside hi hc t (some t) s.dlock s.slock s.act ⟨rest, .idle⟩ hu (fun _ _ h => h) trivial 1
+      · split at hs
+        · cases hs
+          exact coh_outside hi hc t (some t) s.dlock s.slock s.act ⟨rest, .idle⟩ hu (fun _ _ h => h) trivial (s.adepth + 1)
+        · cases hs
     | accRelease =>
       simp only at hs
       split at hs
       · cases hs
-        exact coh_outside hi hc t none s.dlock s.slock s.act ⟨rest, .idle⟩ hu (fun _ _ h => h) trivial
+        exact coh_outside hi hc t _ s.dlock s.slock s.act ⟨rest, .idle⟩ hu (fun _ _ h => h) trivial (s.adepth - 1)
+      · cases hs
+    | reqAcquire k =>
+      simp only at hs
+      split at hs
+      · cases hs
+        exact coh_outside hi hc t s.alock (some t) s.slock s.act ⟨rest, .idle⟩ hu (fun _ _ h => h) trivial
+      · cases hs
+    | reqRelease =>
+      simp only at hs
+      split at hs
+      · cases hs
+        exact coh_outside hi hc t s.alock none s.slock s.act ⟨rest, .idle⟩ hu (fun _ _ h => h) trivial
       · cases hs
     | activate k ps =>
       simp only at hs
